@@ -67,6 +67,15 @@ pub struct Family {
     /// the first request (for every table) is flushed, then the cache is evicted or the database
     /// restarted, then read: the evict / reload path on every table
     pub reload_shape: bool,
+    /// three flushed partitions of one table in which a float column is dense, then absent for 8 /
+    /// 16 / 24 rows, then NULL in every other row; factor 2 leaves the first two alone and merges all
+    /// three at the third flush (the rebuild appends a null map to a builder whose bitmap exists and
+    /// whose length is a multiple of 8)
+    pub gap_nullable: bool,
+    /// K = 3..8 requests of very different sizes with no flush (the first lifetime has
+    /// max_wal_files 1000), then a restart into max_wal_files 1 or 2 - the new lifetime starts with a
+    /// log over its limit and flushes on its own - then a second restart, content read after each
+    pub wal_backlog: bool,
     /// three rounds of (request for every table, flush): with a factor that does not merge, every
     /// table ends with three partitions - the catalogue file of the last flush is the longest
     pub flush_cycles: bool,
@@ -319,6 +328,75 @@ pub fn gen_history(r: &mut Rng, fam: &Family) -> (String, Sx) {
         ops.push(l(vec![a("evict")]));
         ops.push(l(vec![a("restart")]));
         let class = format!("{}/f{}/forced/restart", fam.name, factor);
+        return (class, l(vec![l(opts), l(ops)]));
+    }
+    if fam.gap_nullable {
+        let t = g.tables[0].clone();
+        let k = *r.pick(&[8usize, 16, 24]);
+        let n1 = k + 8 * r.usize(0, 1);
+        let n3 = *r.pick(&[k, k + 3, 2 * k]);
+        let stride = *r.pick(&[2usize, 3]);
+        let mk = |start: usize, n: usize, f_mode: u8, r: &mut Rng| -> Sx {
+            // f_mode 0: dense, 1: absent, 2: NULL in the rows whose index is not a multiple of stride
+            let ids: Vec<Sx> = (0..n).map(|i| l(vec![a("i"), Sx::int((start + i) as i64)])).collect();
+            let pad: Vec<Sx> = (0..n).map(|i| l(vec![a("i"), Sx::int(13_000_000_091i64 * (start + i) as i64)])).collect();
+            let mut cols = vec![l(vec![name_sx("id"), l(ids)]), l(vec![name_sx("pad"), l(pad)])];
+            if f_mode != 1 {
+                let f: Vec<Sx> = (0..n)
+                    .map(|i| {
+                        if f_mode == 2 && (start + i) % stride != 0 {
+                            a("n")
+                        } else {
+                            l(vec![a("f"), Sx::int(FLOATS[r.below(FLOATS.len() as u64) as usize].to_bits())])
+                        }
+                    })
+                    .collect();
+                cols.push(l(vec![name_sx("f"), l(f)]));
+            }
+            l(vec![name_sx(&t), Sx::int(n), l(cols)])
+        };
+        let mut ops = vec![a("ops")];
+        ops.push(l(vec![a("ingest"), l(vec![mk(0, n1, 0, r)])]));
+        ops.push(l(vec![a("flush")]));
+        ops.push(l(vec![a("ingest"), l(vec![mk(n1, k, 1, r)])]));
+        ops.push(l(vec![a("flush")]));
+        ops.push(l(vec![a("ingest"), l(vec![mk(n1 + k, n3, 2, r)])]));
+        ops.push(l(vec![a("flush")]));
+        ops.push(l(vec![a("evict")]));
+        ops.push(l(vec![a("restart")]));
+        let class = format!("{}/f{}/k{}/forced/restart", fam.name, factor, k);
+        return (class, l(vec![l(opts), l(ops)]));
+    }
+    if fam.wal_backlog {
+        let k = r.usize(3, 8);
+        let mut ops = vec![a("ops")];
+        let mut next: BTreeMap<String, usize> = BTreeMap::new();
+        for j in 0..k {
+            let t = g.tables[r.below(2) as usize].clone();
+            let n = if j == 0 { 5 } else { *r.pick(&[3usize, 40, 400, 1500]) };
+            let start = *next.get(&t).unwrap_or(&0);
+            next.insert(t.clone(), start + n);
+            let ids: Vec<Sx> = (0..n).map(|i| l(vec![a("i"), Sx::int((start + i) as i64)])).collect();
+            let va: Vec<Sx> = (0..n).map(|i| l(vec![a("i"), Sx::int(((start + i) as i64 * 7919) % 100_003)])).collect();
+            let vc: Vec<Sx> = (0..n).map(|i| l(vec![a("f"), Sx::int((0.5 + (start + i) as f64 * 1.25).to_bits())])).collect();
+            let tb = l(vec![name_sx(&t), Sx::int(n), l(vec![l(vec![name_sx("id"), l(ids)]), l(vec![name_sx("a"), l(va)]), l(vec![name_sx("c"), l(vc)])])]);
+            ops.push(l(vec![a("ingest"), l(vec![tb])]));
+        }
+        ops.push(l(vec![a("restart")]));
+        ops.push(l(vec![a("restart")]));
+        ops.push(l(vec![a("evict")]));
+        let lim = *r.pick(&[1u64, 2]);
+        let opts = vec![
+            a("opts"),
+            l(vec![a("combine"), Sx::int(factor)]),
+            l(vec![a("max_wal_files"), Sx::int(lim)]),
+            l(vec![a("first_life_wal_files"), Sx::int(1000)]),
+            l(vec![a("max_wal_size"), Sx::int(64u64 << 20)]),
+            l(vec![a("max_part_bytes"), Sx::int(8u64 << 20)]),
+            l(vec![a("io_threads"), Sx::int(io)]),
+            l(vec![a("flush_threads"), Sx::int(ft)]),
+        ];
+        let class = format!("{}/f{}/k{}/bg/restart", fam.name, factor, k);
         return (class, l(vec![l(opts), l(ops)]));
     }
     if fam.flush_cycles {
